@@ -48,6 +48,10 @@ def gen_elem(r, depth, budget):
     if USE_NS[0]:
         # namespaces: two prefixes (p, q) and a default namespace declared on inner elements
         e["ns"] = r.weighted([(None, 5), ("P", 3), ("Q", 2), ("D", 1)])
+        # extra namespace declarations at any depth (re-declaring a prefix, or an unused one): raw xmlns attributes
+        # that consumers walking the DOM attributes (KeyTable) see and the attribute tests must reject
+        if r.chance(1, 4):
+            e["nsdecl"] = r.choice([' xmlns:p="nsP"', ' xmlns:r="nsR"', ' xmlns:q="nsQ" xmlns:r="nsR"'])
     for an in ANAMES:
         if budget[0] > 0 and r.chance(1, 4):
             budget[0] -= 1
@@ -108,6 +112,8 @@ def xml_of(n, dflt="", top=False):
             decl += ' xmlns="nsD"'; dflt = "D"
         elif ns is None and dflt == "D":
             decl += ' xmlns=""'; dflt = ""
+        if n.get("nsdecl") and not top:
+            decl += n["nsdecl"]
         at = "".join(' %s%s="%s"' % ("p:" if a.get("ns") else "", a["name"], a.get("value", "1")) for a in n["attrs"])
         if not n["kids"]:
             return "<%s%s%s/>" % (tag, decl, at)
